@@ -607,6 +607,11 @@ func (gen *Generator) GenerateInclude(args []Sexp) error {
 	// the form leaves exactly one value, that of the last file
 	nfiles := 0
 
+	// only the last form of the last file can be in tail position
+	oldtail := gen.Tail
+	defer func() { gen.Tail = oldtail }()
+	filesLeft := includeFileCount(args)
+
 	var sourceItem func(item Sexp) error
 
 	sourceItem = func(item Sexp) error {
@@ -637,6 +642,8 @@ func (gen *Generator) GenerateInclude(args []Sexp) error {
 				gen.AddInstruction(PopInstr(0))
 			}
 			nfiles++
+			filesLeft--
+			gen.Tail = oldtail && filesLeft == 0
 			start := len(gen.instructions)
 			err = gen.GenerateBegin(exps)
 			if err != nil {
@@ -665,6 +672,24 @@ func (gen *Generator) GenerateInclude(args []Sexp) error {
 	}
 
 	return nil
+}
+
+// includeFileCount counts the file names among the arguments of include.
+func includeFileCount(items []Sexp) int {
+	n := 0
+	for _, item := range items {
+		switch t := item.(type) {
+		case *SexpArray:
+			n += includeFileCount(t.Val)
+		case *SexpPair:
+			if arr, err := ListToArray(t); err == nil {
+				n += includeFileCount(arr)
+			}
+		case *SexpStr:
+			n++
+		}
+	}
+	return n
 }
 
 func (gen *Generator) GenerateCallBySymbol(sym *SexpSymbol, args []Sexp, orig Sexp) error {
